@@ -53,8 +53,8 @@ class Sampling:
         out = []
         for x in self.prog.lib_bodies(b.crate):
             if x.path != b.path and x.kind != "Closure" and "::tests::" not in x.path and any(c.callee == b.path for c in x.live_calls()):
-                # entry points call it too; the wrapper is the one that stores thread_count
-                if any(s["k"] == "assign" and s["p"]["l"] == 1 and place_fields(s["p"]) == ("thread_count",) for bi, si, s in x.stmts()):
+                # entry points (methods of Bencher) call it too; the wrapper is the method of the same receiver type
+                if x.arg_count >= 1 and x.local_ty(1) == b.local_ty(1):
                     out.append(x)
         return out[0] if len(out) == 1 else None
 
